@@ -120,7 +120,9 @@ Proof.
         left. apply str_eqb_eq in E. inversion Hu. now subst. }
       specialize (P (u, M) Hin). cbn [snd] in P. now apply Z.ltb_lt in P. }
     nia. }
-  now rewrite Z2N.id.
+  unfold as_i64. rewrite Z2N.id by assumption.
+  destruct (Z.ltb_spec (Z.of_N n * M) 9223372036854775808) as [_|Hge]; [reflexivity|].
+  exfalso. assert (2 ^ 53 < 9223372036854775808) by reflexivity. lia.
 Qed.
 
 Example int_literal_with_unit_ex : conforms_int OpGt 2000 (s "1 KiB") = true /\ conforms_int OpGt 1000 (s "1 KiB") = false /\ conforms_int OpEq (-1) (s "-1") = true.
